@@ -40,17 +40,21 @@ func genC19(repo string) {
 				}
 				arg := Nospace(call.Args[2])
 				base := "BaseUnknown"
-				switch arg {
-				case "uint64(txConfig.LogIndex)":
-					// txConfig must be k.TxConfig(ctx, …) taken before the EVM runs
-					if txConfigTakenBeforeExecution(fd) {
-						base = "BaseTxCfgLogIndex"
-					}
-				case "k.EvmState.BlockLogSize.GetOr(ctx,0)", "uint64(k.EvmState.BlockLogSize.GetOr(ctx,0))":
+				// tolerate renamings: the receiver and the local holding k.TxConfig(ctx, …) may have any name
+				cfgVar := txConfigVar(fd)
+				norm := strings.TrimSuffix(strings.TrimPrefix(arg, "uint64("), ")")
+				if !strings.HasPrefix(arg, "uint64(") {
+					norm = arg
+				}
+				switch {
+				case cfgVar != "" && norm == cfgVar+".LogIndex":
+					// the config must be k.TxConfig(ctx, …) taken before the EVM runs
+					base = "BaseTxCfgLogIndex"
+				case strings.HasSuffix(norm, ".EvmState.BlockLogSize.GetOr(ctx,0)"):
 					base = "BaseLogSize"
-				case "uint64(k.EvmState.BlockTxIndex.GetOr(ctx,0))", "k.EvmState.BlockTxIndex.GetOr(ctx,0)":
+				case strings.HasSuffix(norm, ".EvmState.BlockTxIndex.GetOr(ctx,0)"):
 					base = "BaseTxIndex"
-				case "uint64(0)", "0":
+				case norm == "0":
 					base = "BaseZero"
 				}
 				sites = append(sites, site{fd.Name.Name, arg, base})
@@ -84,7 +88,8 @@ func genC19(repo string) {
 	// EthereumTx increments the tx index at its end
 	incr := false
 	if fd := kf["EthereumTx"]; fd != nil && fd.Body != nil {
-		incr = strings.Contains(Nospace(fd.Body), "k.EvmState.BlockTxIndex.Set(ctx,uint64(txConfig.TxIndex)+1)")
+		v := txConfigVar(fd)
+		incr = v != "" && strings.Contains(Nospace(fd.Body), ".EvmState.BlockTxIndex.Set(ctx,uint64("+v+".TxIndex)+1)")
 	}
 	// updateBlockBloom sets BlockLogSize := logIndex + len(logs) when there are logs
 	form := false
@@ -114,19 +119,23 @@ func genC19(repo string) {
 	fmt.Println("].")
 }
 
-// txConfigTakenBeforeExecution: the function assigns `txConfig := k.TxConfig(ctx, …)` before
+// txConfigVar: name of the local the function assigns `… := k.TxConfig(ctx, …)` to, before
 // its first call of ApplyEvmMsg / CallContractWithInput and never reassigns it.
-func txConfigTakenBeforeExecution(fd *ast.FuncDecl) bool {
+func txConfigVar(fd *ast.FuncDecl) string {
 	var assignPos, execPos int = -1, -1
 	nAssign := 0
+	name := ""
 	ast.Inspect(fd.Body, func(n ast.Node) bool {
 		switch x := n.(type) {
 		case *ast.AssignStmt:
 			for i, l := range x.Lhs {
-				if id, ok := l.(*ast.Ident); ok && id.Name == "txConfig" && i < len(x.Rhs) {
-					nAssign++
-					if strings.HasPrefix(Nospace(x.Rhs[i]), "k.TxConfig(ctx,") && assignPos < 0 {
+				if id, ok := l.(*ast.Ident); ok && i < len(x.Rhs) {
+					if strings.Contains(Nospace(x.Rhs[i]), ".TxConfig(ctx,") && assignPos < 0 {
 						assignPos = int(x.Pos())
+						name = id.Name
+						nAssign++
+					} else if name != "" && id.Name == name {
+						nAssign++ // reassigned later: not the value taken before execution
 					}
 				}
 			}
@@ -139,5 +148,8 @@ func txConfigTakenBeforeExecution(fd *ast.FuncDecl) bool {
 		}
 		return true
 	})
-	return nAssign == 1 && assignPos >= 0 && (execPos < 0 || assignPos < execPos)
+	if nAssign == 1 && assignPos >= 0 && (execPos < 0 || assignPos < execPos) {
+		return name
+	}
+	return ""
 }
